@@ -96,8 +96,9 @@ def allPairs : List Entry :=
   ml_v3.table ++ ml_v4.table ++ ml_v5.table
 
 open Generated.Conforms in
-/-- pairs with a listed deviation (known finding: `Constant.sparse_value`) -/
-def deviatingPairs : List Entry :=
+/-- pairs with a listed deviation (known findings: `Constant.sparse_value`; `GroupNormalization-18`
+    deprecated), each with what is excepted -/
+def deviatingPairs : List (List String × Entry) :=
   v17.deviating ++ v18.deviating ++ v19.deviating ++ v20.deviating ++ v21.deviating ++
   ml_v3.deviating ++ ml_v4.deviating ++ ml_v5.deviating
 
@@ -126,12 +127,23 @@ theorem entryOK_sound (e : Entry) (h : entryOK e = true) :
     inputsOK e.2.2.inputs e.2.1.inputWires (positional e.2.1.params) = true ∧
     attrsOK e.2.1.params e.2.1.cls.attrs e.2.1.attrWires e.2.2.attrs = true := by
   simp only [entryOK, conformsTo, Bool.and_eq_true, beq_iff_eq, and_assoc] at h
-  obtain ⟨h0, h1, h2, h3, _, h5, h6, h7, h8, _⟩ := h
+  obtain ⟨h0, h1, h2, h3, _, _, h5, h6, h7, h8, _⟩ := h
   exact ⟨h0, h1, h2, h3, h5, h6, h7, h8⟩
 
-/-- the deviating pairs conform in everything but the absent attribute -/
-theorem table_conforms_except :
-    ∀ e ∈ deviatingPairs, entryOKExcept ["sparse_value"] e = true := by decide +kernel
+open Generated.Conforms in
+/-- the deviating pairs conform in everything but their listed deviation -/
+theorem table_conforms_except : ∀ d ∈ deviatingPairs, entryOKExcept d.1 d.2 = true := by
+  intro e he
+  simp only [deviatingPairs, List.mem_append] at he
+  rcases he with ((((((h | h) | h) | h) | h) | h) | h) | h
+  · exact v17.deviating_conforms e h
+  · exact v18.deviating_conforms e h
+  · exact v19.deviating_conforms e h
+  · exact v20.deviating_conforms e h
+  · exact v21.deviating_conforms e h
+  · exact ml_v3.deviating_conforms e h
+  · exact ml_v4.deviating_conforms e h
+  · exact ml_v5.deviating_conforms e h
 
 /-! ## known finding: `Constant` has no `sparse_value` (v17–v21)
 
@@ -167,10 +179,38 @@ theorem constant_sparse_value_counterexample :
     conformsTo pinnedConstant (dropAttrs pinnedConstantSchema ["sparse_value"]) = true := by
   decide +kernel
 
+/-! ## known finding: `GroupNormalization-18` is deprecated (modules v18–v20)
+
+onnx 1.22 marks the schema in force at versions 18–20 as deprecated: the checker refuses the node. -/
+
+def pinnedGroupNorm : Ctor :=
+  { pyName := "v18.group_normalization",
+    cls := { pyName := "v18._GroupNormalization", base := "StandardNode", opName := "GroupNormalization",
+             domain := "", version := 18,
+             inputs := [("X", .single), ("scale", .single), ("bias", .single)],
+             outputs := [("Y", .single)],
+             attrs := [⟨"epsilon", .float, false⟩, ⟨"num_groups", .int, false⟩] },
+    params := [⟨"X", false, .var, none⟩, ⟨"scale", false, .var, none⟩, ⟨"bias", false, .var, none⟩, ⟨"epsilon", true, .attr, some (Val.float 925353388)⟩, ⟨"num_groups", true, .attr, none⟩],
+    attrWires := [⟨"epsilon", .float, false, "epsilon", "epsilon", false⟩, ⟨"num_groups", .int, false, "num_groups", "num_groups", false⟩],
+    inputWires := [("X", "X"), ("scale", "scale"), ("bias", "bias")],
+    outVar := .none, ret := .field "Y" }
+
+def pinnedGroupNormSchema : Schema :=
+  { name := "GroupNormalization", domain := "", since := 18, deprecated := true, minInput := 3, minOutput := 1,
+    inputs := [("X", .single), ("scale", .single), ("bias", .single)],
+    outputs := [("Y", .single)],
+    attrs := [⟨"epsilon", .FLOAT, false, (Val.float 925353388)⟩, ⟨"num_groups", .INT, true, Val.none⟩] }
+
+/-- **group_normalization_deprecated_counterexample.** -/
+theorem group_normalization_deprecated_counterexample :
+    conformsTo pinnedGroupNorm pinnedGroupNormSchema = false ∧
+    conformsTo pinnedGroupNorm (undeprecate pinnedGroupNormSchema ["@deprecated"]) = true := by
+  decide +kernel
+
 /-! ## non-vacuity -/
 
 example : allPairs.length > 900 := by decide +kernel
-example : deviatingPairs.length = 5 := by decide +kernel
+example : deviatingPairs.length = 8 := by decide +kernel
 /-- `Clip(x, None, max)`: the inner omitted optional stays as an empty name -/
 example : emitSlots 1 [Arg.single "x", .opt none, .opt (some "hi")] = [some "x", none, some "hi"] := by
   decide
